@@ -307,9 +307,21 @@ class SArr:
         return SArr(self._shape[::-1], lambda idx, s=self: s._get(idx[::-1]), self.sort)
 
     def transpose(self, *axes):
-        if not axes:
+        if not axes or axes == (None,):
             return self.T
-        raise Unsupported("transpose with axes")
+        if len(axes) == 1 and isinstance(axes[0], (tuple, list)):
+            axes = tuple(axes[0])
+        axes = tuple(int(a) % self.ndim for a in axes)
+        if sorted(axes) != list(range(self.ndim)):
+            raise Unsupported("transpose axes %r" % (axes,))
+        shp = tuple(self._shape[a] for a in axes)
+
+        def get(idx, s=self, axes=axes):
+            src = [None] * len(axes)
+            for o, a in enumerate(axes):
+                src[a] = idx[o]
+            return s._get(tuple(src))
+        return SArr(shp, get, self.sort)
 
     def copy(self):
         return SArr(self._shape, self._get, self.sort)
@@ -1177,7 +1189,7 @@ class NPModel:
             hstack=self._d(np_hstack, np.hstack), vstack=self._d(np_vstack, np.vstack),
             concatenate=self._concat, arange=np_arange, tile=self._d2(np_tile, np.tile), repeat=self._d2(np_repeat, np.repeat),
             sum=np_sum, max=np_max, sort=np_sort, unique=np_unique, nonzero=self._nz, abs=self._abs,
-            reshape=self._reshape,
+            reshape=self._reshape, moveaxis=self._moveaxis,
         )
 
     def _d(self, sym, real):
@@ -1224,6 +1236,15 @@ class NPModel:
         if isinstance(a, (SArr, S)):
             return abs(a)
         return np.abs(a)
+
+    def _moveaxis(self, a, source, destination):
+        if not isinstance(a, SArr):
+            return np.moveaxis(a, source, destination)
+        n = a.ndim
+        src, dst = int(source) % n, int(destination) % n
+        order = [k for k in range(n) if k != src]
+        order.insert(dst, src)
+        return a.transpose(*order)
 
     def _reshape(self, a, shape, order="C"):
         if isinstance(a, SArr) or _any_sym(shape):
